@@ -37,6 +37,15 @@ class Interp:
         self.key_cache = {}
         self.globals = {}
         self.rtf_docs = []
+        # import tree -> modules in increasing import precedence (post-order: the imports of a module, in order, then the module)
+        self.modules = []
+
+        def walk(m):
+            for i in m.get('imports', []):
+                walk(i)
+            self.modules.append(m)
+        walk(sheet)
+        self.templates = [(prec, t) for prec, m in enumerate(self.modules) for t in m.get('templates', [])]
         self.eval_global_vars()
 
     # ---------- xpath glue
@@ -80,9 +89,18 @@ class Interp:
 
     # ---------- globals
     def eval_global_vars(self):
-        for name, val in self.sheet.get('globals', []):
+        # a binding in a module of higher import precedence replaces one of lower precedence (modules are in increasing order)
+        eff = {}
+        order = []
+        for m in self.modules:
+            for g in m.get('globals', []):
+                name, val = g[0], g[1]
+                if name not in eff:
+                    order.append(name)
+                eff[name] = val
+        for name in order:
             c = self.ctx(self.doc.root, 1, 1, dict(self.globals))
-            self.globals[name] = self.var_value(val, c)
+            self.globals[name] = self.var_value(eff[name], c)
 
     def var_value(self, val, c):
         if val[0] == 'select':
@@ -97,13 +115,13 @@ class Interp:
     # ---------- template selection
     def find_template(self, node, mode):
         best = None
-        for ti, t in enumerate(self.sheet['templates']):
+        for ti, (prec, t) in enumerate(self.templates):
             if t.get('match') is None or (t.get('mode') or '') != (mode or ''):
                 continue
             for ast, dflt in t['match'][2]:
                 if self.matches(node, ast):
                     pr = t['priority'] if t.get('priority') is not None else dflt
-                    k = (pr, ti)
+                    k = (prec, pr, ti)
                     if best is None or k > best[0]:
                         best = (k, t)
         return best[1] if best else None
@@ -293,7 +311,7 @@ class Interp:
             for i, n in enumerate(nodes):
                 self.apply_to(n, ins[2], i + 1, len(nodes), c.vars, params, out)
         elif k == 'call':
-            t = [t for t in self.sheet['templates'] if t.get('name') == ins[1]][0]
+            t = [t for prec, t in self.templates if t.get('name') == ins[1]][-1]      # highest import precedence
             params = {pn: self.ev(E, c) for pn, E in ins[2]}
             self.instantiate(t, c, params, out)
         elif k == 'variable':
@@ -452,15 +470,26 @@ def ins_text(ins):
     raise ValueError(k)
 
 
+def sheet_resources(sheet):
+    """href -> text of every imported module (recursively)"""
+    out = {}
+    for m in sheet.get('imports', []):
+        out[m['href']] = sheet_text(m)
+        out.update(sheet_resources(m))
+    return out
+
+
 def sheet_text(sheet):
     o = ['<xsl:stylesheet version="1.0" xmlns:xsl="%s" xmlns:xalan="http://xml.apache.org/xalan" exclude-result-prefixes="xalan">' % XSLNS]
+    for m in sheet.get('imports', []):
+        o.append('<xsl:import href="%s"/>' % m['href'])
     if sheet.get('strip'):
         o.append('<xsl:strip-space elements="*"/>')
     for (name, m_ast, mt, u_ast, ut) in sheet.get('keys', []):
         o.append('<xsl:key name="%s" match="%s" use="%s"/>' % (name, xa(mt), xa(ut)))
-    for name, val in sheet.get('globals', []):
-        o.append(var_text('variable', name, val))
-    for t in sheet['templates']:
+    for g in sheet.get('globals', []):
+        o.append(var_text(g[2] if len(g) > 2 else 'variable', g[0], g[1]))
+    for t in sheet.get('templates', []):
         a = ''
         if t.get('match') is not None:
             a += ' match="%s"' % xa(t['match'][1])
